@@ -292,9 +292,37 @@ def check_case(tp, sp, cdesc):
     return fails, len(out)
 
 
+def check_pass_fits(layers):
+    """the schedule the real dart-scheduler pass emits fits the accelerator's template: matcher (exact oracle),
+    bounds, pure output stationarity and memory flexibility for the operands' true element sizes"""
+    from props.c03 import run_pass
+    try:
+        res = run_pass(layers)
+    except Exception as e:
+        return [{"what": "pass_raises", "klass": None, "layers": layers, "detail": repr(e)[:300]}]
+    fails = []
+    for k, (T, pats, sizes, emitted) in enumerate(res):
+        if emitted is None:
+            fails.append({"what": "pass_unscheduled", "klass": None, "layers": layers, "detail": {"op_index": k}})
+            continue
+        r = D.mk_schedule(emitted)
+        if r.num_dims < T.num_dims:
+            fails.append({"what": "fewer_dims_than_template", "klass": "fewer_dims_than_template", "layers": layers,
+                          "detail": {"op_index": k, "result": emitted}})
+            continue
+        for what, detail in fits_failures(T, r, [], None, {"checks": "both", "sizes": sizes}):
+            fails.append({"what": "pass_" + what, "klass": None, "layers": layers, "detail": {"op_index": k, "emitted": emitted, "sizes": sizes, **detail}})
+    return fails
+
+
 def search(ctx, deep=False):
     rng = ctx.rng
     fails = []
+    from props.c03 import gen_pass_module
+    for i in range(ctx.n(15, 200)):
+        layers = gen_pass_module(rng)
+        fails += check_pass_fits(layers)
+        ctx.count({"L2": "pass-fits", "layers": layers}, True, f"l2p{layers}", "L2-pass")
     for i in range(ctx.n(400, 5000) * (3 if deep else 1)):
         tp, sp, fam = D.gen_sched_case(rng, max_points=100000)
         if tp[0][0] == [] or any(len(p[0]) != len(tp[0][0]) for p in tp):
@@ -364,6 +392,12 @@ def replay(ctx, obj):
     if not f:
         print("no failing input recorded; broken obligations:", obj.get("no_longer_checks"))
         return 1
+    if "layers" in f:
+        print("layers:", f["layers"])
+        res = check_pass_fits(f["layers"])
+        for r in res:
+            print("FAIL", r["what"], "class:", r["klass"], r["detail"])
+        return 1 if res else 0
     tp, sp = _plain_in(f["template"]), _plain_in(f["schedule"])
     print("template:", tp)
     print("schedule:", sp, "checks:", f["checks"])
